@@ -27,6 +27,7 @@ type vpReplayFile struct {
 	Records  map[string]string `json:"records"` // base64-free: raw JSON text per symbolic record name
 	Threaded bool              `json:"threaded"`
 	Expect   string            `json:"expect"`
+	Repeat   int               `json:"repeat"`
 }
 
 type vpOutcome struct {
